@@ -142,7 +142,10 @@ func (s *Solver) define(t *sym.Term) {
 		if x.Op == sym.OVar {
 			s.send(fmt.Sprintf("(declare-const %s %s)", sym.Ref(x), sym.SortString(x)))
 		} else {
-			s.send(fmt.Sprintf("(define-fun %s () %s %s)", sym.Ref(x), sym.SortString(x), sym.Body(x)))
+			// definitional equality instead of define-fun: z3 4.8.12 handles long
+			// define-fun chains pathologically slowly (27 s vs 2 s on the same log)
+			s.send(fmt.Sprintf("(declare-const %s %s)", sym.Ref(x), sym.SortString(x)))
+			s.send(fmt.Sprintf("(assert (= %s %s))", sym.Ref(x), sym.Body(x)))
 		}
 		s.defined[x.ID] = true
 		s.stack[len(s.stack)-1] = append(s.stack[len(s.stack)-1], x.ID)
@@ -200,6 +203,9 @@ func (s *Solver) Check() Result {
 		}
 	}
 }
+
+// Define makes sure t is known to the solver (must precede the check-sat whose model is read).
+func (s *Solver) Define(t *sym.Term) { s.define(t) }
 
 // CheckWith asserts extra temporarily and checks.
 func (s *Solver) CheckWith(extra *sym.Term) Result {
@@ -276,7 +282,9 @@ func (s *Solver) Model(vars []*sym.Term) (map[string]uint64, error) {
 
 // ModelOf returns the value of an arbitrary term under the last sat answer.
 func (s *Solver) ModelOf(t *sym.Term) (uint64, error) {
-	s.define(t)
+	if t.Op != sym.OConst && !s.defined[t.ID] {
+		return 0, fmt.Errorf("ModelOf: term not defined before check-sat")
+	}
 	s.send(fmt.Sprintf("(get-value (%s))", sym.Ref(t)))
 	depth, started := 0, false
 	var buf strings.Builder
